@@ -2,6 +2,8 @@ package coresim
 
 // Extensions of the scenario runner for C04/C06 (spec/Lifecycle*.tla).
 //
+//   {"do":"disarm","point":P}  stops gating P (later arrivals pass) but keeps the goroutines already parked
+//                              there parked until a "release" step.
 //   {"do":"pendingcalls"}  records Pending{n, started}: the number of goroutines of the in-process
 //                          core that sit in callable.(*Call).Start's goroutine (a started hook call
 //                          whose result has not been collected yet and which has not been cancelled)
@@ -15,6 +17,13 @@ import (
 )
 
 func init() {
+	ExtraSteps["disarm"] = func(r *Runner, st *Step, ctx context.Context) {
+		r.Sched.Ungate(st.Point)
+		r.mu.Lock()
+		delete(r.matchers, st.Point)
+		r.mu.Unlock()
+		r.Emit("GateDisarmed", "point", st.Point, "parked", r.Sched.NParked(st.Point))
+	}
 	ExtraSteps["pendingcalls"] = func(r *Runner, st *Step, ctx context.Context) {
 		// a cancelled call goroutine needs a moment to leave its select
 		n := -1
